@@ -24,6 +24,13 @@ REACH = [
     ("return _serialize_recursive(", "implies(not attr_absent(element,'default') and not is_np(element.default), has(schema,'default') and schema['default'] is element.default)"),
     ("return _serialize_recursive(", "implies(has(schema,'default'), not is_np(element.default))"),
 ]
+# every other keyword attribute that differs from the constructor default is carried under its own name, unchanged
+_NP_KW = ["const", "enum", "items", "minItems", "maxItems", "contains", "minimum", "maximum", "exclusiveMinimum", "exclusiveMaximum", "multipleOf", "format", "pattern",
+          "minLength", "maxLength", "patternProperties", "minProperties", "maxProperties", "propertyNames", "dependencies", "description"]
+for _k in _NP_KW:
+    REACH.append(("return _serialize_recursive(", f"implies(not attr_absent(element,'{_k}') and not is_np(element.{_k}), has(schema,'{_k}') and schema['{_k}'] is element.{_k})"))
+for _k, _d in (("additionalItems", "True"), ("additionalProperties", "True"), ("uniqueItems", "False")):
+    REACH.append(("return _serialize_recursive(", f"implies(not attr_absent(element,'{_k}') and element.{_k} is not {_d} and (is_obj(element.{_k}) or is_bool(element.{_k})), has(schema,'{_k}') and schema['{_k}'] is element.{_k})"))
 for K in ["Element", "String", "Integer", "Array"]:
     contract(J + "_serialize_element", inst=K,
              requires=f"type_is(element, {K}) and elem_wf(element) and bound(element)",
